@@ -63,6 +63,8 @@ pub fn build_router(log: &Arc<Log>) -> Router { build_router_mw(log, true) }
 pub fn build_router_mw(log: &Arc<Log>, with_mw: bool) -> Router {
     let reg = Arc::new(Registry::new());
     reg.register_value("/v", json!({"k": 1})).unwrap();
+    let reg2 = Arc::new(Registry::new());
+    reg2.register_value("/w", json!({"k": 2})).unwrap();
     let mk = |tag: &'static str| {
         let l = log.clone();
         move || l.push(json!({"ev": "invoked", "tag": tag}))
@@ -90,6 +92,10 @@ pub fn build_router_mw(log: &Arc<Log>, with_mw: bool) -> Router {
         .with_erased_handler("/custom", Arc::new(Custom(log.clone())))
         .with_registry("/reg", reg)
         .with_struct("/st", St)
+        .0
+        // later mounts whose roots merely BEGIN with an earlier mount's root (no '/' boundary): each keeps its own paths
+        .with_registry("/reg2", reg2)
+        .with_struct("/stx", St)
         .0
 }
 
@@ -132,6 +138,9 @@ fn classes() -> Vec<Class> {
         c("registry_read", "/reg/v", false, 1, 2, b""),
         c("registry_missing", "/reg/none", false, 1, 2, b""),
         c("struct_read", "/st/a/b", false, 1, 2, b""),
+        c("registry2_read", "/reg2/w", false, 1, 2, b""),
+        c("struct2_read", "/stx/a/b", false, 1, 2, b""),
+        c("mount_sibling_missing", "/regx/v", false, 1, 2, b""),
         c("struct_rawfmt", "/st/a", false, 1, 0, b"\x01\x02"),
         c("custom", "/custom", false, 1, 2, br#"{}"#),
         c("unknown_path", "/nope", false, 1, 2, br#"{}"#),
